@@ -23,6 +23,7 @@ import (
 	"net"
 	"os"
 	"path/filepath"
+	"regexp"
 	"sort"
 	"strconv"
 	"strings"
@@ -34,9 +35,39 @@ import (
 )
 
 type ingIn struct {
-	Name  string            `json:"name"`
-	Ann   map[string]string `json:"ann,omitempty"` // keys without the annotation prefix
-	Rules []c1819.Rule      `json:"rules"`
+	Namespace string            `json:"namespace,omitempty"` // "" = default
+	Name      string            `json:"name"`
+	Ann       map[string]string `json:"ann,omitempty"` // keys without the annotation prefix
+	Rules     []c1819.Rule      `json:"rules"`
+}
+
+func (g ingIn) ns() string {
+	if g.Namespace == "" {
+		return "default"
+	}
+	return g.Namespace
+}
+
+func (g ingIn) id() string { return g.ns() + "/" + g.Name }
+
+// namespaces of a case, "default" first when used
+func namespacesOf(in input) []string {
+	seen := map[string]bool{}
+	var out []string
+	for _, g := range in.Ingresses {
+		if !seen[g.ns()] {
+			seen[g.ns()] = true
+			out = append(out, g.ns())
+		}
+	}
+	sort.Strings(out)
+	return out
+}
+
+// every namespace has the same services; their endpoints differ by namespace
+func nsIP(ns string, last int) string {
+	n := map[string]int{"default": 0, "team-a": 1, "team-b": 2}[ns]
+	return fmt.Sprintf("172.17.%d.%d", n, last)
 }
 
 type input struct {
@@ -87,7 +118,8 @@ func declOf(ann map[string]string) decl {
 // ---------------------------------------------------------------- generator
 
 var goodURLs = []string{"http://10.0.0.2:8000/auth", "http://10.0.0.3:8000/auth", "https://10.0.0.4/check", "http://10.0.0.5", "http://localhost:8000/auth",
-	"svc://authsvc:8080/auth", "service://authsvc:8080", "http://10.0.0.6:81/a", "http://10.0.0.7:82/a"}
+	"svc://authsvc:8080/auth", "service://authsvc:8080", "http://10.0.0.6:81/a", "http://10.0.0.7:82/a",
+	"svc://authsvc:8080/auth", "svc://authsvc:9090/auth", "http://10.0.0.2:8001/auth"}
 var badURLs = []string{"http://unresolvable.invalid/auth", "https://nx.invalid:8443/", "10.0.0.2:8000/auth", "http:/10.0.0.2", "ftp://10.0.0.2/auth", "tcp://10.0.0.2:80",
 	"svc://nosuch:8080/auth", "svc://authsvc/auth", "svc://authsvc:9999", "http://10.0.0.2:8000/au th", "http://[::1]:80/", "HTTP://10.0.0.2/", "svc://other/authsvc:8080", "://", "http://"}
 var proxyRanges = []string{"", "", "", "_front__auth__local:14415-14415", "_front__auth__local:14415-14416", "bogus", "_front__auth__local:14420-14410", "p:1-0", "_front__auth__local:14415-14417"}
@@ -194,6 +226,33 @@ func genPipeline(rng *rand.Rand) input {
 			in.Ingresses = append(in.Ingresses, g)
 		}
 	}
+	// several tenants: the same manifests (names, annotations, svc://name:port urls) in other
+	// namespaces, on hosts of their own; every namespace has its own authsvc / oauth2proxy
+	switch rng.Intn(4) {
+	case 0:
+		for i := range in.Ingresses {
+			in.Ingresses[i].Namespace = pick(rng, []string{"", "team-a", "team-b"})
+		}
+	case 1:
+		base := append([]ingIn{}, in.Ingresses...)
+		for i := range in.Ingresses {
+			in.Ingresses[i].Namespace = "team-a"
+		}
+		for _, g := range base {
+			c := ingIn{Namespace: "team-b", Name: g.Name, Ann: g.Ann}
+			for _, r := range g.Rules {
+				r.Host = "b-" + r.Host
+				c.Rules = append(c.Rules, r)
+			}
+			in.Ingresses = append(in.Ingresses, c)
+		}
+	}
+	oauthNS := ""
+	for _, g := range in.Ingresses {
+		if _, ok := g.Ann[kOAuth]; ok {
+			oauthNS = g.Namespace
+		}
+	}
 	if oauthSeen && rng.Intn(4) != 0 {
 		host := hosts[0]
 		if rng.Intn(4) == 0 {
@@ -204,7 +263,7 @@ func genPipeline(rng *rand.Rand) input {
 			prefix = "/auth2"
 		}
 		if !used[host+prefix] {
-			in.Ingresses = append(in.Ingresses, ingIn{Name: "ingoauth", Rules: []c1819.Rule{{Host: host, Path: prefix, Service: "oauth2proxy", Port: 8080}}})
+			in.Ingresses = append(in.Ingresses, ingIn{Namespace: oauthNS, Name: "ingoauth", Rules: []c1819.Rule{{Host: host, Path: prefix, Service: "oauth2proxy", Port: 8080}}})
 		}
 	}
 	if rng.Intn(3) == 0 { // authsvc exposed too (makes svc:// urls resolvable without the pre-build)
@@ -245,6 +304,16 @@ func corpus() []input {
 		{Kind: "pipeline", PathType: "Prefix", Services: svcs, Ingresses: []ingIn{
 			{Name: "ing0", Ann: annOf(kURL, "http://10.0.0.3:8000/auth", kPlace, "backend"), Rules: r("h1.local", "/pub", "app1")},
 			{Name: "ing1", Ann: annOf(kURL, "http://10.0.0.2:8000/auth", kPlace, "frontend"), Rules: r("h1.local", "/app", "app1")}}},
+		// two tenants with identical manifests: svc://authsvc:8080 is another service in each
+		// namespace (a seeded BackendID.Equals without the namespace shared one bind)
+		{Kind: "pipeline", PathType: "Prefix", Services: svcs, Ingresses: []ingIn{
+			{Namespace: "team-a", Name: "ing1", Ann: annOf(kURL, "svc://authsvc:8080/check"), Rules: r("a.local", "/", "app1")},
+			{Namespace: "team-b", Name: "ing1", Ann: annOf(kURL, "svc://authsvc:8080/check"), Rules: r("b.local", "/", "app1")}}},
+		// same service, two ports; frontend placement next to backend placement
+		{Kind: "pipeline", PathType: "Prefix", Services: svcs, Ingresses: []ingIn{
+			{Namespace: "team-a", Name: "ing1", Ann: annOf(kURL, "svc://authsvc:8080/check", kPlace, "frontend"), Rules: r("a.local", "/", "app1")},
+			{Namespace: "team-a", Name: "ing2", Ann: annOf(kURL, "svc://authsvc:9090/check"), Rules: r("a2.local", "/", "app1")},
+			{Namespace: "team-b", Name: "ing1", Ann: annOf(kURL, "svc://authsvc:9090/check", kPlace, "frontend"), Rules: r("b.local", "/", "app1")}}},
 		// empty auth-proxy range
 		{Kind: "pipeline", PathType: "Prefix", Global: map[string]string{"auth-proxy": "_front__auth__local:14420-14410"}, Services: svcs, Ingresses: []ingIn{
 			{Name: "ing1", Ann: annOf(kURL, "http://10.0.0.2:8000/auth"), Rules: r("h1.local", "/app", "app1")}}},
@@ -296,15 +365,21 @@ func runPipeline(in input, scratch string) *pipeObs {
 	if err != nil {
 		panic(err)
 	}
-	for _, s := range in.Services {
-		p.AddService("default/"+s, "8080", "172.17.0.11", nil)
+	for _, ns := range namespacesOf(in) {
+		for i, s := range in.Services {
+			if s == "authsvc" {
+				p.AddServicePorts(ns+"/"+s, []int{8080, 9090}, nsIP(ns, 21))
+			} else {
+				p.AddService(ns+"/"+s, "8080", nsIP(ns, 11+i), nil)
+			}
+		}
 	}
 	for _, g := range in.Ingresses {
 		ann := map[string]string{}
 		for k, v := range g.Ann {
 			ann[c1819.AnnPrefix+"/"+k] = v
 		}
-		p.AddIngressPT("default", g.Name, ann, g.Rules, in.PathType)
+		p.AddIngressPT(g.ns(), g.Name, ann, g.Rules, in.PathType)
 	}
 	p.Sync()
 	cfg, err := p.Write()
@@ -320,7 +395,7 @@ func runPipeline(in input, scratch string) *pipeObs {
 		d := declOf(g.Ann)
 		for _, r := range g.Rules {
 			link := hatypes.CreateHostPathLink(r.Host, r.Path, matchOf(in.PathType))
-			be := hc.Backends().FindBackend("default", r.Service, "8080")
+			be := hc.Backends().FindBackend(g.ns(), r.Service, "8080")
 			if be == nil {
 				continue
 			}
@@ -328,7 +403,7 @@ func runPipeline(in input, scratch string) *pipeObs {
 			if bp == nil {
 				continue
 			}
-			po := pathObs{Ingress: g.Name, Host: r.Host, Path: r.Path, Backend: be.ID, PathID: bp.ID,
+			po := pathObs{Ingress: g.id(), Host: r.Host, Path: r.Path, Backend: be.ID, PathID: bp.ID,
 				Deny: bp.AuthExternal.AlwaysDeny, Name: bp.AuthExternal.AuthBackendName, Allowed: bp.AuthExternal.AllowedPath}
 			if h := hc.Hosts().FindHost(r.Host); h != nil {
 				if hp := h.FindPathWithLink(link); hp != nil && hp.AuthExt != nil {
@@ -357,7 +432,7 @@ type fail struct{ key, what string }
 
 // expected target of an auth-url, computed from the text only: list of "ip:port"
 // (http/https) or a backend id (svc); ok=false when the url cannot designate a service.
-func urlTarget(url string) (ips []string, port int, backendID string, ok bool) {
+func urlTarget(url, srcNS string) (ips []string, port int, backendID string, ok bool) {
 	i := strings.Index(url, "://")
 	if i <= 0 {
 		return nil, 0, "", false
@@ -397,7 +472,7 @@ func urlTarget(url string) (ips []string, port int, backendID string, ok bool) {
 			if j := strings.Index(portStr, "/"); j >= 0 {
 				portStr = portStr[:j]
 			}
-			ns := "default"
+			ns := srcNS
 			if j := strings.Index(name, "/"); j >= 0 {
 				ns, name = name[:j], name[j+1:]
 			}
@@ -452,7 +527,7 @@ func probes(in input, host, path string) []string {
 
 func hostConflict(in input, g ingIn) bool {
 	for _, o := range in.Ingresses {
-		if o.Name == g.Name {
+		if o.id() == g.id() {
 			continue
 		}
 		share := false
@@ -471,13 +546,18 @@ func hostConflict(in input, g ingIn) bool {
 				return true
 			}
 		}
+		// the frontend placement is host wide: the same relative svc:// url declared from
+		// two namespaces on one host is resolved once, in the namespace registered first
+		if v := o.Ann[kURL]; v != "" && o.ns() != g.ns() && (strings.HasPrefix(v, "svc://") || strings.HasPrefix(v, "service://")) {
+			return true
+		}
 	}
 	return false
 }
 
 func siblingHasURL(in input, g ingIn, service string) bool {
 	for _, o := range in.Ingresses {
-		if o.Name == g.Name || o.Ann[kURL] == "" {
+		if o.id() == g.id() || o.Ann[kURL] == "" || o.ns() != g.ns() {
 			continue
 		}
 		for _, r := range o.Rules {
@@ -498,7 +578,7 @@ func oraclePipeline(in input, obs *pipeObs) []fail {
 	}
 	byIng := map[string]ingIn{}
 	for _, g := range in.Ingresses {
-		byIng[g.Name] = g
+		byIng[g.id()] = g
 	}
 	for _, po := range obs.Paths {
 		g := byIng[po.Ingress]
@@ -543,7 +623,16 @@ func oraclePipeline(in input, obs *pipeObs) []fail {
 				fs = append(fs, fail{"auth-backend-dangling", fmt.Sprintf("%s: %s has no bind in the auth proxy", id, name)})
 				return
 			}
-			ips, port, backendID, ok := urlTarget(url)
+			// the same through the written configuration: backend _auth_N -> its server
+			// 127.0.0.1:P -> the bind of the auth proxy -> use_backend
+			if rb, found := followAuthName(secs, name); !found {
+				fs = append(fs, fail{"auth-backend-dangling", fmt.Sprintf("%s: %s cannot be followed to a backend in the rendered configuration", id, name)})
+				return
+			} else if rb != target {
+				fs = append(fs, fail{"wrong-auth-service", fmt.Sprintf("%s: rendered %s reaches backend %s, the bind list says %s", id, name, rb, target)})
+				return
+			}
+			ips, port, backendID, ok := urlTarget(url, g.ns())
 			if !ok {
 				fs = append(fs, fail{"wrong-auth-service", fmt.Sprintf("%s: %q cannot designate a service but %s -> %s was configured", id, url, name, target)})
 				return
@@ -636,6 +725,48 @@ func oraclePipeline(in input, obs *pipeObs) []fail {
 		}
 	}
 	return fs
+}
+
+var bindRe = regexp.MustCompile(`^\s*bind 127\.0\.0\.1:(\d+)(?: id (\d+))?\s*$`)
+var useRe = regexp.MustCompile(`^\s*use_backend (\S+)(?: if \{ so_id (\d+) \})?\s*$`)
+var srvRe = regexp.MustCompile(`^\s*server \S+ 127\.0\.0\.1:(\d+)\s*$`)
+
+// followAuthName resolves an `_auth_<port>` name in the rendered configuration to the
+// backend the auth proxy sends its requests to.
+func followAuthName(secs map[string]*c1819.Section, name string) (string, bool) {
+	be := secs["backend "+name]
+	if be == nil {
+		return "", false
+	}
+	port := ""
+	for _, l := range be.Lines {
+		if m := srvRe.FindStringSubmatch(l); m != nil {
+			port = m[1]
+		}
+	}
+	if port == "" {
+		return "", false
+	}
+	for _, s := range secs {
+		if s.Kind != "frontend" {
+			continue
+		}
+		sid, has := "", false
+		for _, l := range s.Lines {
+			if m := bindRe.FindStringSubmatch(l); m != nil && m[1] == port {
+				sid, has = m[2], true
+			}
+		}
+		if !has {
+			continue
+		}
+		for _, l := range s.Lines {
+			if m := useRe.FindStringSubmatch(l); m != nil && m[2] == sid {
+				return m[1], true
+			}
+		}
+	}
+	return "", false
 }
 
 func serviceOf(g ingIn, po pathObs) string {
